@@ -74,6 +74,13 @@ def map_err (r : Except ε α) (f : ε → ε') : Except ε' α :=
   | .ok a => .ok a
   | .error e => .error (f e)
 
+/-- `Option::ok_or(e)` / `Option::ok_or_else(|| e)` (the translator accepts only a closure without `return` / `?`; in a
+    total language it makes no difference that Rust evaluates its body on `None` only) -/
+def ok_or (o : Option α) (e : ε) : Except ε α :=
+  match o with
+  | some a => .ok a
+  | none => .error e
+
 /-! ### `str` / `String` -/
 
 /-- `str::lines` -/
